@@ -30,6 +30,10 @@ import (
 type c13Case struct {
 	Strategy c13kit.Strategy `json:"strategy"`
 	Reverse  bool            `json:"reverse"` // answer outstanding requests highest height first
+	// Wide: instead of one peer per height, three peers that each offer the whole range 1..Tip+1; the first one tells WideLie for
+	// every height it is asked for (where that lie exists), the others are honest; a dropped peer is replaced by an honest one
+	Wide    bool       `json:"wide,omitempty"`
+	WideLie c13kit.Lie `json:"wide_lie,omitempty"`
 }
 
 type c13Req struct {
@@ -212,6 +216,21 @@ func (n *c13Net) addPeer(h int64) {
 	n.r.Receive(BlockchainChannel, p, c13hand.Wire(c13kit.StatusMsg(h, h)))
 }
 
+// addWidePeer: a peer that offers every height (H = 0 marks it; K = ordinal)
+func (n *c13Net) addWidePeer() *c13hand.Peer {
+	k := n.nextK[0]
+	n.nextK[0] = k + 1
+	p := c13hand.NewPeer(0, k, func(p *c13hand.Peer, height int64) bool {
+		n.reqs = append(n.reqs, c13Req{p, height})
+		return true
+	}, nil)
+	n.peers = append(n.peers, p)
+	p2p.AddPeerToSwitchPeerSet(n.sw, p)
+	n.r.AddPeer(p)
+	n.r.Receive(BlockchainChannel, p, c13hand.Wire(c13kit.StatusMsg(1, c13kit.Tip+1)))
+	return p
+}
+
 func (n *c13Net) dropped(p *c13hand.Peer) bool {
 	if !p.IsRunning() {
 		return true
@@ -245,8 +264,14 @@ func c13Run(chain *c13kit.Chain, c c13Case) (res c13Result) {
 			}
 		}
 	}()
-	for h := int64(1); h <= c13kit.Tip+1; h++ {
-		n.addPeer(h)
+	if c.Wide {
+		for i := 0; i < 3; i++ {
+			n.addWidePeer()
+		}
+	} else {
+		for h := int64(1); h <= c13kit.Tip+1; h++ {
+			n.addPeer(h)
+		}
 	}
 	clock := time.Duration(0)
 	idle := 0
@@ -254,9 +279,21 @@ func c13Run(chain *c13kit.Chain, c c13Case) (res c13Result) {
 	for iter := 0; iter < 400 && !n.finished; iter++ {
 		progress := n.drain()
 		// a peer that was dropped is replaced by the next peer for that height
-		for h := n.sc.height; h <= c13kit.Tip+1 && !n.schedStopped; h++ {
+		for h := n.sc.height; h <= c13kit.Tip+1 && !n.schedStopped && !c.Wide; h++ {
 			if p := n.cur[h]; p != nil && n.dropped(p) {
 				n.addPeer(h)
+				progress = true
+			}
+		}
+		if c.Wide && !n.schedStopped {
+			live := 0
+			for _, p := range n.peers {
+				if !n.dropped(p) {
+					live++
+				}
+			}
+			for ; live < 3 && len(n.peers) < 12; live++ {
+				n.addWidePeer()
 				progress = true
 			}
 		}
@@ -280,6 +317,23 @@ func c13Run(chain *c13kit.Chain, c c13Case) (res c13Result) {
 		}
 		for _, q := range reqs {
 			p := q.peer
+			if c.Wide {
+				// every request is answered on its own: the liar (the first wide peer) lies wherever its lie exists
+				lie := c13kit.Honest
+				if p.K == 0 && c13kit.Applicable(c.WideLie, q.height) {
+					lie = c.WideLie
+				}
+				resp := chain.Respond(lie, q.height)
+				if !p.Asked || !resp.Usable {
+					p.Resp = resp // the oracle looks at the worst thing the peer said
+				}
+				p.Asked = true
+				if resp.Msg != nil && p.IsRunning() {
+					n.r.Receive(BlockchainChannel, p, c13hand.Wire(resp.Msg))
+				}
+				progress = true
+				continue
+			}
 			if !p.Asked {
 				p.Asked = true
 				p.Resp = chain.Respond(c.Strategy.Next(p.H, p.K), q.height)
@@ -403,7 +457,7 @@ func c13Run(chain *c13kit.Chain, c c13Case) (res c13Result) {
 	if kept > 0 {
 		diag("bad_peer_removed_from_scheduler_but_still_connected")
 	}
-	if st.LastBlockHeight < c13kit.Tip && c.Strategy.NumLies() == 0 {
+	if st.LastBlockHeight < c13kit.Tip && c.Strategy.NumLies() == 0 && !(c.Wide && c.WideLie != c13kit.Honest) {
 		res.Key = "blockchain/v2:honest-peers-only-and-tip-not-reached"
 		res.What = fmt.Sprintf("every answer was the canonical block, yet block sync ended at height %d of %d", st.LastBlockHeight, c13kit.Tip)
 		res.Outcome = "violation"
@@ -450,6 +504,29 @@ func TestVerifC13V2(t *testing.T) {
 	}
 	k, levelDone, stop := 0, -1, false
 	confirmed := map[string]bool{}
+	// peers that each offer the whole range (so that a peer has several blocks waiting in the processor): one liar with every
+	// kind of lie, two honest ones, both answer orders
+	for _, lie := range append([]c13kit.Lie{c13kit.Honest}, c13kit.FullMenu()...) {
+		for _, rev := range []bool{false, true} {
+			k++
+			if !r.Mine(k) {
+				continue
+			}
+			c := c13Case{Wide: true, WideLie: lie, Reverse: rev}
+			r.Eval()
+			r.Traces++
+			r.NTCount(1)
+			res := c13Run(chain, c)
+			r.Transitions += int64(res.Steps)
+			if res.Key != "" {
+				if r2 := c13Run(chain, c); r2.Key != res.Key {
+					panic("C13 v2 harness nondeterministic on a wide-peer case")
+				}
+				r.Violation(res.Key, res.What, c)
+			}
+			r.Outcome("wide:" + res.Outcome)
+		}
+	}
 	c13kit.Enumerate(menuFor, maxLies, func(s c13kit.Strategy) bool {
 		for _, c := range []c13Case{{Strategy: s}, {Strategy: s, Reverse: true}} {
 			k++
